@@ -161,7 +161,11 @@ var readOps = []readOp{
 		err2 := d.Merge(map[string]interface{}{"w": c, "l": []interface{}{c}}, append([]ucfg.Option{ucfg.AppendValues}, o...)...)
 		var m map[string]interface{}
 		err3 := d.Unpack(&m, o...)
-		return fmt.Sprint(err, err2, show(m, err3))
+		// ... and with options that concern the destination only (provenance, policies)
+		d2 := ucfg.New()
+		err4 := d2.Merge(c, append([]ucfg.Option{ucfg.MetaData(ucfg.Meta{Source: "merge.yml"}), ucfg.PrependValues}, o...)...)
+		err5 := d2.Merge(c, append([]ucfg.Option{ucfg.MetaData(ucfg.Meta{Source: "again.yml"}), ucfg.ReplaceValues}, o...)...)
+		return fmt.Sprint(err, err2, show(m, err3), err4, err5)
 	}},
 	{"newfrom-source", func(c *ucfg.Config, o []ucfg.Option) string {
 		d, err := ucfg.NewFrom(struct {
@@ -170,7 +174,8 @@ var readOps = []readOp{
 		if err != nil {
 			return fmt.Sprint(err)
 		}
-		return fmt.Sprint(sorted(d.GetFields()))
+		_, err2 := ucfg.NewFrom(c, append([]ucfg.Option{ucfg.MetaData(ucfg.Meta{Source: "new.yml"})}, o...)...)
+		return fmt.Sprint(sorted(d.GetFields()), err2)
 	}},
 }
 
